@@ -1,6 +1,7 @@
 import SoxrModel.Conc.Safety
 import SoxrModel.Conc.Witness
 import SoxrModel.Conc.Vr
+import SoxrModel.Conc.Two
 /-!
 # C17 — distinct resamplers can be used concurrently
 
@@ -196,6 +197,46 @@ theorem writer_use_exclusive {s t : St} (h : Good s) (hf : fire .use_w s = some 
   have we := writer_excludes_all h
   refine ⟨by omega, nr.2 h1, by omega, we.2 h2, rfl, rfl⟩
 
+/-! ## two caches: the locks of the double and of the float cache are different objects
+
+Everything above is about one cache.  The process has two; that they do not interfere is the assumption built into `SysStep`
+(a step with respect to one cache changes nothing of the other: different `ccrw2_t`, `FFT_LEN`, tables), checked on the real
+code by the harness monitor `LOCK-SHARED-BETWEEN-CACHES`. -/
+
+/-- HYPOTHESIS EXPLICIT (`SysStep`): if the two caches share no variable, then after both are initialised every interleaving of
+    any number of threads through both caches keeps BOTH `Good`, i.e. every theorem above holds for each of them -/
+theorem both_caches_good {n m : Nat} {s : Sys} (h : SysReachable ⟨warm n, warm m⟩ s) : Good s.d ∧ Good s.f :=
+  ⟨.warm n (sys_proj h).1, .warm m (sys_proj h).2⟩
+
+/-- … and from process start, as long as neither cache's initialisation is raced -/
+theorem both_caches_good_partial {n m : Nat} {d f : St} (hd : ReachableS (cold n) d) (hf : ReachableS (cold m) f) :
+    Good d ∧ Good f := ⟨.coldSerial n hd, .coldSerial m hf⟩
+
+/-- NEGATION with the hypothesis dropped (one `ccrw2_t` serving both caches, each cache keeping its own first-use guard): the
+    other cache's initialiser re-creates the lock words while a reader of this cache is inside a transform; a second thread
+    then takes `w` and re-allocates the tables under that reader — from a `Good` state, with no raced initialisation of THIS
+    cache.  With the lock intact the same thread is stopped at `P(w)` (`grow_blocked_run`). -/
+theorem shared_lock_breaks_exclusion :
+    ∃ s u, Good s ∧ run growUnderReaderTrace (foreignInit s) = some u ∧ 0 < u.reading ∧ 0 < u.rebuilding ∧
+      run growUnderReaderTrace s = none := by
+  have h1 := grow_after_foreignInit_run
+  have h2 := grow_blocked_run
+  -- (propositional rewriting only: a definitional unfolding of `run` on a symbolic state is hopeless for the kernel)
+  cases hr : run readerInTrace (warm 2) with
+  | none => rw [hr] at h1; exact absurd h1 (by simp)
+  | some s =>
+    rw [hr, Option.bind_some] at h1 h2
+    cases hu : run growUnderReaderTrace (foreignInit s) with
+    | none => rw [hu] at h1; exact absurd h1 (by simp)
+    | some u =>
+      rw [hu, Option.map_some] at h1
+      have h3 := Option.some.inj h1
+      simp only [obs, List.cons.injEq] at h3
+      refine ⟨s, u, .warm 2 (reach_of_run _ hr), hu, by omega, by omega, ?_⟩
+      cases hb : run growUnderReaderTrace s with
+      | none => rfl
+      | some _ => rw [hb] at h2; exact absurd h2 (by simp)
+
 /-! ## `vr_init`'s tables -/
 
 /-- PARTIAL: if no thread executes the test `fade_coefs[0]==0` while another is inside the initialiser, the tables are written
@@ -253,6 +294,42 @@ example : ∃ s t, Good s ∧ fire .use_w s = some t := by
     simp only [hr, Option.map_some, Option.some.injEq] at h2
     have hg : Soxr.Conc.guard .use_w s := ⟨by simp [Label.src, h2], by simp [guardX]⟩
     exact ⟨s, eff .use_w s, .warm 2 (reach_of_run _ hr), by simp [fire, hg]⟩
+
+/-- the hypothesis of `both_caches_good` is met by a run in which both caches are used: the double cache grown, a float reader -/
+example : ∃ s : Sys, SysReachable ⟨warm 2, warm 2⟩ s ∧ s.d.flen = 8 ∧ 0 < s.f.cnt .r2 := by
+  cases hr : run readerInTrace (warm 2) with
+  | none => have := grow_after_foreignInit_run; rw [hr] at this; exact absurd this (by simp)
+  | some d =>
+    have hd : d.flen = 8 := by
+      have h : (run readerInTrace (warm 2)).map (fun s => s.flen) = some 8 := by decide
+      rw [hr, Option.map_some] at h
+      exact Option.some.inj h
+    cases hf : run [.call, .i0_warm, .r1] (warm 2) with
+    | none => have h : (run [.call, .i0_warm, .r1] (warm 2)).isSome = true := by decide
+              rw [hf] at h; exact absurd h (by simp)
+    | some f =>
+      have hc : 0 < f.cnt .r2 := by
+        have h : (run [.call, .i0_warm, .r1] (warm 2)).map (fun s => s.cnt .r2) = some 1 := by decide
+        rw [hf, Option.map_some] at h
+        have := Option.some.inj h
+        omega
+      -- lift the two single-cache runs to the product
+      have liftD : ∀ {a b : St} (x : St), Reachable a b → SysReachable ⟨a, x⟩ ⟨b, x⟩ := by
+        intro a b x h
+        induction h with
+        | init => exact .init
+        | step _ st ih => exact .step ih (.dbl x st)
+      have liftF : ∀ {a b : St} (x : St), Reachable a b → SysReachable ⟨x, a⟩ ⟨x, b⟩ := by
+        intro a b x h
+        induction h with
+        | init => exact .init
+        | step _ st ih => exact .step ih (.flt x st)
+      have trans : ∀ {a b c : Sys}, SysReachable a b → SysReachable b c → SysReachable a c := by
+        intro a b c h1 h2
+        induction h2 with
+        | init => exact h1
+        | step _ st ih => exact .step ih st
+      exact ⟨⟨d, f⟩, trans (liftD (warm 2) (reach_of_run _ hr)) (liftF d (reach_of_run _ hf)), hd, hc⟩
 
 /-- the re-test matters: a `Good` state in which a thread that upgraded finds `len > FFT_LEN` false (another thread grew the
     cache while it waited) and downgrades -/
